@@ -25,11 +25,11 @@ Lemma next_keyline_gen p last k w0 w1 l0 w2 rest :
   next p last ((k ++ w0 ++ [colon] ++ w1 ++ l0 ++ w2) :: rest) =
   next {| order := order p ++ [k]; values := values p ++ [(k, l0)] |} k rest.
 Proof.
-  intros Hk Hm (P0&_&C0) P1 P2 Hl Ht. pose proof Hk as [Hne Hcol Hnl Hlead Htrail Hhash].
+  intros Hk Hm (P0&_&C0) P1 P2 Hl Ht. pose proof Hk as [Hne Hcol Hnl Hlead Htrail Hhash Hdash].
   set (X := k ++ w0 ++ [colon] ++ w1 ++ l0 ++ w2).
   assert (C : cut_colon [] X = Some (k ++ w0, w1 ++ l0 ++ w2)).
   { subst X. rewrite app_assoc. apply (cut_colon_word (k ++ w0) [] (w1 ++ l0 ++ w2)). now apply free_app. }
-  destruct k as [|c k']; [congruence|]. cbn [no_lead] in Hlead. cbn [starts] in Hhash.
+  destruct k as [|c k']; [congruence|]. cbn [no_lead] in Hlead. cbn [starts] in Hhash, Hdash.
   assert (HX : X = c :: (k' ++ w0 ++ [colon] ++ w1 ++ l0 ++ w2)) by reflexivity.
   assert (B : is_blank_line X = false).
   { rewrite HX. unfold is_blank_line. destruct (str_eqb_spec (c :: k' ++ w0 ++ [colon] ++ w1 ++ l0 ++ w2) []); [discriminate|].
@@ -41,7 +41,7 @@ Proof.
   cbn [next]. rewrite B, H1, H2, H3, C. cbn [orb].
   assert (TK : trim_space ((c :: k') ++ w0) = c :: k').
   { rewrite <- (app_nil_l ((c :: k') ++ w0)). apply (trim_space_pad_both [] (c :: k') w0); auto. constructor. }
-  rewrite TK, (trim_space_pad_both w1 l0 w2 P1 P2 Hl Ht). cbn [starts]. rewrite Hhash, Hm. reflexivity.
+  rewrite TK, (trim_space_pad_both w1 l0 w2 P1 P2 Hl Ht). cbn [starts]. rewrite Hhash, Hdash, Hm. reflexivity.
 Qed.
 
 (* ---- continuation line: marker (space or tab), content ("." for an empty line), trailing blanks ---- *)
